@@ -46,112 +46,208 @@ def bodies_of(F, path):
     return b, out
 
 
+MEMBER_READS = ("contains", "contains_key", "get")
+OTHER_READS = ("len", "iter", "is_empty", "keys", "values")
+GROW = ("extend", "insert")
+ITER_TRANSPARENT = ("std::iter::Iterator::map", "std::collections::HashSet::<T, S, A>::iter", "std::iter::Iterator::cloned",
+                    "std::iter::Iterator::copied", "std::collections::HashSet::<T, S, A>::into_iter", "std::iter::IntoIterator::into_iter")
+
+
+def excl_fields(F):
+    """fields of the selector that can remember refs: containers of UtxoRef"""
+    out = {}
+    for fd in F.adt(SEL)["variants"][0]["fields"]:
+        if "UtxoRef" in fd["ty"] and re.search(r"(HashSet|HashMap|BTreeSet|BTreeMap|Vec|VecDeque)<", fd["ty"]):
+            out[fd["name"]] = fd["ty"]
+    return out
+
+
+def _field_of(origins, fields):
+    for x in origins:
+        for p in x.proj:
+            if p.startswith(".") and p[1:] in fields:
+                return p[1:]
+    return None
+
+
+class Access:
+    def __init__(self, field, op, fn, line, bb, term, via=(), data=None):
+        self.field, self.op, self.fn, self.line, self.bb, self.term, self.via, self.data = field, op, fn, line, bb, term, via, data
+
+    @property
+    def kind(self):
+        if self.op in MEMBER_READS:
+            return "member"
+        if self.op in OTHER_READS:
+            return "read"
+        if self.op in GROW:
+            return "grow"
+        return "other"
+
+
+def accesses(F, f, fields, depth=0, owner_capt=None):
+    """calls in f (and in the closures it creates, and in the selector's own helper methods it calls, two levels) whose receiver
+    is one of the selector's ref-remembering fields.  `data` = the operand *in f* the written data comes from (grow only)."""
+    out = []
+    du = mir.DefUse(f)
+    for bi, t in mir.calls(f):
+        if not t["args"]:
+            continue
+        c = t.get("callee") or ""
+        org = mir.provenance(f, du, t["args"][0], transparent_extra=("std::ops::Deref::deref", "std::ops::DerefMut::deref_mut"))
+        fld = _field_of(org, fields)
+        if fld is None and owner_capt:
+            # closure: receiver is an upvar that captured a field of the selector
+            for x in org:
+                if x.kind == "arg" and x.local == 1:
+                    for p in x.proj:
+                        if re.match(r"^\.\d+$", p) and int(p[1:]) in owner_capt:
+                            fld = owner_capt[int(p[1:])]
+                            break
+        if fld is not None:
+            op = c.split("::")[-1]
+            data = t["args"][1] if (op in GROW and len(t["args"]) > 1) else None
+            out.append(Access(fld, op, f, t["line"], bi, t, data=data))
+            continue
+        # helper methods of the selector, called on self
+        r = t.get("resolved") or c
+        if depth < 2 and r.startswith(SELP) and r in F.fns and r != f["path"]:
+            g = F.fns[r]
+            for a in accesses(F, g, fields, depth + 1):
+                data = None
+                if a.kind == "grow" and a.data is not None:
+                    dg = mir.DefUse(a.fn) if a.fn is g else None
+                    if dg is not None:
+                        for o in mir.provenance(g, dg, a.data, transparent_extra=ITER_TRANSPARENT):
+                            if o.kind == "arg" and 1 <= o.local <= len(t["args"]):
+                                data = t["args"][o.local - 1]
+                    else:
+                        data = a.data
+                out.append(Access(a.field, a.op, f, t["line"], bi, t, via=(r.split("::")[-1],) + tuple(a.via), data=data))
+    # closures created here
+    for bi, si, s in mir.stmts(f):
+        rv = s["rv"]
+        if rv["k"] == "agg" and rv.get("closure"):
+            g = F.fns.get(rv["closure"])
+            if g is None:
+                continue
+            capt = {}
+            whole = False
+            for i, o in enumerate(rv["ops"]):
+                org = mir.provenance(f, du, o)
+                fld = _field_of(org, fields)
+                if fld:
+                    capt[i] = fld
+            for a in accesses(F, g, fields, depth + 1, owner_capt=capt):
+                out.append(Access(a.field, a.op, f, s["line"], bi, None, via=("closure",) + tuple(a.via), data=None))
+    return out
+
+
 def s_ignore(F, res):
-    # (a) who touches `ignore`
-    allowed_mut = ("std::iter::Extend::extend",)
-    reads = ("std::collections::HashSet::<T, S, A>::contains", "std::collections::HashSet::<T, S, A>::len", "std::collections::HashSet::<T, S, A>::iter")
+    fields = excl_fields(F)
+    if not fields:
+        raise BrokenCheck("InputSelector has no field that can remember taken refs")
+    b, allb = bodies_of(F, SELP + "select_input")
+    cfg = mir.CFG(b)
+    du = mir.DefUse(b)
+    acc = accesses(F, b, fields)
+    # (c) candidates are filtered through a membership test on a remembering field
+    key3 = SELP + "select_input|candidates exclude taken refs"
+    fu = [(bi, t) for bi, t in mir.calls(b) if t.get("trait") == "tx3_resolver::UtxoStore" and t.get("method") == "fetch_utxos"]
+    if not fu:
+        raise BrokenCheck("select_input no longer calls fetch_utxos")
+    filt_fields = set()
+    value_dependent = set()
+    good3 = True
+    for bi, t in fu:
+        src = mir.provenance(b, du, t["args"][1])
+        coll = [x for x in src if x.kind == "call" and x.callee == "std::iter::Iterator::collect"]
+        here = set()
+        for x in coll:
+            for y in mir.provenance(b, du, x.term["args"][0]):
+                if y.kind == "call" and y.callee == "std::iter::Iterator::filter":
+                    for z in mir.provenance(b, du, y.term["args"][1]):
+                        if z.kind == "agg" and z.rv.get("closure"):
+                            g = F.fns.get(z.rv["closure"])
+                            capt = {}
+                            for i, o in enumerate(z.rv["ops"]):
+                                fld = _field_of(mir.provenance(b, du, o), fields)
+                                if fld:
+                                    capt[i] = fld
+                            for a in accesses(F, g, fields, 1, owner_capt=capt):
+                                if a.kind == "member":
+                                    here.add(a.field)
+                                    if a.op == "get" and re.search(r"Map<", fields[a.field]):
+                                        value_dependent.add(a.field)
+        if not here:
+            good3 = False
+        filt_fields |= here
+    if good3:
+        res.add([ok("S-IGNORE", key3, where(b), "fetch_utxos(take(..).into_iter().filter(<membership test on self.%s>).collect())" % "/".join(sorted(filt_fields)))])
+    else:
+        res.add([finding("S-IGNORE", key3, where(b), "the refs handed to the store are not filtered through the selector's memory of taken refs: a UTxO taken by an earlier block can be offered again")])
+    track = filt_fields or set(fields)
+    # (a) the remembering fields only ever grow, and a mark once set keeps excluding
     touched = []
     for f in list(F.fns.values()) + list(F.built.values()):
         if f["crate"] != "tx3_resolver" or is_derive(f):
             continue
         if f["path"] in F.built and f.get("stage") == "opt":
             continue   # use the pre-transform body of coroutines
-        du = None
+        if f.get("owner"):
+            continue   # closures are reached through their owner
         for bi, si, s in mir.stmts(f):
             lhs = s["lhs"]
-            if any(p[0] == "f" and p[1] == "ignore" and p[2] == SEL for p in lhs["p"]):
-                touched.append((f, s["line"], "assignment"))
-        for bi, t in mir.calls(f):
-            if not t["args"]:
-                continue
-            du = du or mir.DefUse(f)
-            for ai, a in enumerate(t["args"][:1]):
-                pl = mir.op_place(a)
-                if pl is None:
-                    continue
-                o = mir.provenance(f, du, a)
-                if any(".ignore" in x.proj for x in o):
-                    c = t.get("callee") or ""
-                    if c in reads:
-                        continue
-                    # mutable borrow handed to a call
-                    touched.append((f, t["line"], c))
-    key = SEL + ".ignore|only ever extended"
-    bad = [(f, line, c) for f, line, c in touched if c not in allowed_mut]
+            for p in lhs["p"]:
+                if p[0] == "f" and p[2] == SEL and p[1] in track:
+                    touched.append((f, s["line"], "assignment", p[1]))
+        for a in accesses(F, f, fields):
+            if a.field in track and not a.via[:1] or (a.field in track and a.via and a.via[0] == "closure"):
+                touched.append((f, a.line, a.op, a.field))
+    key = SEL + "|taken refs only ever grow"
     w = "crates/tx3-resolver/src/inputs/select/mod.rs"
-    ext = [(f, line, c) for f, line, c in touched if c in allowed_mut]
+    bad = [(f, line, c, fld) for f, line, c, fld in touched if c not in GROW and c not in MEMBER_READS and c not in OTHER_READS]
+    ext = [(f, line, c, fld) for f, line, c, fld in touched if c in GROW]
+    over = [(f, line, c, fld) for f, line, c, fld in ext if fld in value_dependent]
     if bad:
-        f, line, c = bad[0]
-        res.add([finding("S-IGNORE", key, where(f, line), "`ignore` is modified by `%s` in %s: already-taken UTxOs can become selectable again" % (c, f["path"].split("::")[-2]))])
+        f, line, c, fld = bad[0]
+        res.add([finding("S-IGNORE", key, where(f, line), "`%s` is modified by `%s` in %s: already-taken UTxOs can become selectable again" % (fld, c, f["path"].split("::")[-1]))])
+    elif over:
+        f, line, c, fld = over[0]
+        res.add([finding("S-IGNORE", key, where(f, line), "`%s` is a map whose *value* decides whether a ref is excluded, and `%s` in %s overwrites the value of a ref that is already present: a later mark erases the earlier one and the UTxO becomes selectable again" % (fld, c, f["path"].split("::")[-1]))])
     elif not ext:
-        res.add([finding("S-IGNORE", key, w, "`ignore` is never extended: no block's selection is remembered")])
+        res.add([finding("S-IGNORE", key, w, "the selector's memory of taken refs is never extended: no block's selection is remembered")])
     else:
-        res.add([ok("S-IGNORE", key, w, "written only by extend() in %s (and initialised in new)" % ", ".join(sorted({f["path"].split("::")[-2] for f, _, _ in ext})))])
-    # (b) select_input: Ok(matched) dominated by extend(matched-derived)
-    b, allb = bodies_of(F, SELP + "select_input")
-    cfg = mir.CFG(b)
-    du = mir.DefUse(b)
+        res.add([ok("S-IGNORE", key, w, "%s written only by %s in %s (and initialised in new)" % ("/".join(sorted(track)), "/".join(sorted({c for _, _, c, _ in ext})), ", ".join(sorted({f["path"].split("::")[-1] for f, _, _, _ in ext}))))])
+    # (b) select_input: Ok(matched) dominated by a growth of a filtered-on field with data derived from matched
     oks = [(bi, s) for bi, si, s in mir.stmts(b) if s["lhs"]["l"] == 0 and not s["lhs"]["p"] and s["rv"]["k"] == "agg" and s["rv"].get("variant") == "Ok"]
-    exts = [(bi, t) for bi, t in mir.calls(b) if (t.get("callee") or "") == "std::iter::Extend::extend" and any(".ignore" in x.proj for x in mir.provenance(b, du, t["args"][0]))]
-    key2 = SELP + "select_input|success passes extend(matched)"
+    grows = [a for a in acc if a.kind == "grow" and a.field in track and a.term is not None]
+    key2 = SELP + "select_input|success records the selection"
     if not oks:
         raise BrokenCheck("select_input has no Ok(..) return")
-    good = bool(exts)
+    good = bool(grows)
     why = ""
     for ob, s in oks:
         ret = {repr(x) for x in mir.provenance(b, du, s["rv"]["ops"][0])}
-        dom = [e for e in exts if cfg.dominates(e[0], ob)]
+        dom = [a for a in grows if cfg.dominates(a.bb, ob)]
         if not dom:
             good = False
-            why = "a success return is reachable without recording the selection in `ignore`"
+            why = "a success return is reachable without recording the selection"
             continue
-        # extend's argument derives from the returned set
         derived = False
-        for eb, t in dom:
-            src = mir.provenance(b, du, t["args"][1], transparent_extra=("std::iter::Iterator::map", "std::collections::HashSet::<T, S, A>::iter", "std::iter::Iterator::cloned"))
+        for a in dom:
+            if a.data is None:
+                continue
+            src = mir.provenance(b, du, a.data, transparent_extra=ITER_TRANSPARENT)
             if {repr(x) for x in src} & ret:
                 derived = True
         if not derived:
             good = False
-            why = "what is added to `ignore` is not derived from the set that is returned"
+            why = "what is recorded as taken is not derived from the set that is returned"
     if good:
-        res.add([ok("S-IGNORE", key2, where(b), "every Ok(matched) is dominated by ignore.extend(matched.iter().map(|x| x.ref))")])
+        res.add([ok("S-IGNORE", key2, where(b), "every Ok(matched) is dominated by a growth of self.%s with the refs of `matched`" % "/".join(sorted({a.field for a in grows})))])
     else:
         res.add([finding("S-IGNORE", key2, where(b), why or "select_input never records its selection")])
-    # (c) candidates are filtered through ignore.contains
-    key3 = SELP + "select_input|candidates exclude ignored refs"
-    fu = [(bi, t) for bi, t in mir.calls(b) if t.get("trait") == "tx3_resolver::UtxoStore" and t.get("method") == "fetch_utxos"]
-    if not fu:
-        raise BrokenCheck("select_input no longer calls fetch_utxos")
-    good3 = True
-    for bi, t in fu:
-        src = mir.provenance(b, du, t["args"][1])
-        coll = [x for x in src if x.kind == "call" and x.callee == "std::iter::Iterator::collect"]
-        filt = []
-        for x in coll:
-            for y in mir.provenance(b, du, x.term["args"][0]):
-                if y.kind == "call" and y.callee == "std::iter::Iterator::filter":
-                    filt.append(y)
-        consult = False
-        for y in filt:
-            for fr in y.term.get("fnrefs", ()):
-                g = F.fns.get(fr)
-                if g is None:
-                    continue
-                dg = mir.DefUse(g)
-                for bj, t2 in mir.calls(g):
-                    if (t2.get("callee") or "") == "std::collections::HashSet::<T, S, A>::contains":
-                        consult = True
-            # the closure must capture `ignore`
-            cap = mir.provenance(b, du, y.term["args"][1])
-            if not any(x.kind == "agg" and "closure" in x.rv and any(".ignore" in z.proj for o in x.rv["ops"] for z in mir.provenance(b, du, o)) for x in cap):
-                consult = False
-        if not (filt and consult):
-            good3 = False
-    if good3:
-        res.add([ok("S-IGNORE", key3, where(b), "fetch_utxos(take(..).into_iter().filter(|x| !self.ignore.contains(x)).collect())")])
-    else:
-        res.add([finding("S-IGNORE", key3, where(b), "the refs handed to the store are not filtered through `ignore`: a UTxO taken by an earlier block can be offered again")])
     # (d) one selector per resolution
     r = F.body("tx3_resolver::inputs::resolve")
     cfg_r = mir.CFG(r)
